@@ -106,16 +106,100 @@ Proof.
     + simpl. lia.
 Qed.
 
-(* a non-positive count on a fresh handle returns every entry *)
-Theorem read_dir_all st h n names :
-  h_closed h = false -> h_names h = Some (inl names) -> (n <= 0)%Z ->
-  let '(st', h', l, e) := read_dir st h n in e = None -> map fst l = names.
+(* a non-positive count returns every entry that remains (all of them on a fresh handle) and leaves the
+   handle at the end *)
+Theorem read_dir_rest st h n names :
+  h_closed h = false -> h_names h = Some (inl names) -> (n <= 0)%Z -> (0 <= h_off h <= Z.of_nat (length names))%Z ->
+  let '(st', h', l, e) := read_dir st h n in
+  e = None -> map fst l = skipn (Z.to_nat (h_off h)) names /\ h_off h' = Z.of_nat (length names).
 Proof.
-  intros C N Hn. unfold read_dir. rewrite C. unfold f_names. rewrite N.
+  intros C N Hn Hoff. unfold read_dir. rewrite C. unfold f_names. rewrite N.
   destruct (Z.leb_spec n 0); [|lia].
   destruct (stat_children st (h_path h) _) as [st2 r] eqn:S. destruct r as [l|er]; [|intros X; discriminate].
-  intros _. apply stat_children_names in S. rewrite S.
-  simpl. rewrite Nat2Z.id. unfold sublist. simpl. rewrite Nat.sub_0_r. apply firstn_all.
+  intros _. apply stat_children_names in S. rewrite S. split.
+  - rewrite Z.min_l by lia. rewrite Nat2Z.id. unfold sublist.
+    rewrite firstn_all2; [reflexivity|]. rewrite skipn_length. lia.
+  - simpl. lia.
+Qed.
+
+Theorem read_dir_all st h n names :
+  h_closed h = false -> h_names h = Some (inl names) -> (n <= 0)%Z -> h_off h = 0%Z ->
+  let '(st', h', l, e) := read_dir st h n in e = None -> map fst l = names.
+Proof.
+  intros C N Hn H0. pose proof (read_dir_rest st h n names C N Hn ltac:(lia)) as H.
+  destruct (read_dir st h n) as [[[st' h'] l] e]. intros E. destruct (H E) as [H1 _]. rewrite H1, H0. reflexivity.
+Qed.
+
+(* ---- paging with arbitrary counts: positive = at most n more, non-positive = all that remain ---- *)
+Definition zpage (names : list str) (off : nat) (n : Z) : option (list str * nat) :=
+  if (n <=? 0)%Z then Some (skipn off names, length names) else page names off (Z.to_nat n).
+
+Fixpoint zpages (names : list str) (off : nat) (ns : list Z) : list (list str) * nat :=
+  match ns with
+  | [] => ([], off)
+  | n :: rest =>
+    match zpage names off n with
+    | None => ([], off)
+    | Some (p, off') => let '(ps, o) := zpages names off' rest in (p :: ps, o)
+    end
+  end.
+
+Lemma sublist_to_end {A} (l : list A) off : off <= length l -> sublist off (length l) l = skipn off l.
+Proof. intros H. unfold sublist. apply firstn_all2. rewrite skipn_length. lia. Qed.
+
+Theorem zpages_consecutive names : forall ns off, off <= length names ->
+  let '(ps, o) := zpages names off ns in
+  concat ps = sublist off o names /\ off <= o <= length names.
+Proof.
+  induction ns as [|n rest IH]; intros off Hoff; simpl.
+  - unfold sublist. rewrite Nat.sub_diag. simpl. split; auto.
+  - unfold zpage. destruct (Z.leb_spec n 0) as [Hn|Hn].
+    + specialize (IH (length names) ltac:(lia)).
+      destruct (zpages names (length names) rest) as [ps o]. destruct IH as [IH1 IH2].
+      assert (o = length names) by lia. subst o. simpl. rewrite IH1.
+      unfold sublist at 1. rewrite Nat.sub_diag. simpl. rewrite app_nil_r.
+      split; [symmetry; apply sublist_to_end; lia|lia].
+    + unfold page. destruct (Nat.leb_spec (length names) off) as [Hle|Hlt].
+      * unfold sublist. rewrite Nat.sub_diag. simpl. split; auto.
+      * specialize (IH (Nat.min (off + Z.to_nat n) (length names)) ltac:(lia)).
+        destruct (zpages names (Nat.min (off + Z.to_nat n) (length names)) rest) as [ps o].
+        destruct IH as (IH1 & IH2). simpl. rewrite IH1. split; [apply sublist_app_adjacent; lia|lia].
+Qed.
+
+(* any sequence of counts that reaches the end has delivered every child exactly once, in order *)
+Theorem zpages_partition names ns : snd (zpages names 0 ns) = length names -> concat (fst (zpages names 0 ns)) = names.
+Proof.
+  intros H. pose proof (zpages_consecutive names ns 0 ltac:(lia)) as G.
+  destruct (zpages names 0 ns) as [ps o]. simpl in *. destruct G as [G _]. subst o. rewrite G.
+  unfold sublist. simpl. rewrite Nat.sub_0_r. apply firstn_all.
+Qed.
+
+(* ... and it does reach the end as soon as one count is non-positive *)
+Theorem zpages_nonpositive_reaches_end names : forall ns off, off <= length names ->
+  Exists (fun n => (n <= 0)%Z) ns -> snd (zpages names off ns) = length names.
+Proof.
+  induction ns as [|n rest IH]; intros off Hoff Hex; [inversion Hex|]. simpl. unfold zpage.
+  destruct (Z.leb_spec n 0) as [Hn|Hn].
+  - pose proof (zpages_consecutive names rest (length names) ltac:(lia)) as G.
+    destruct (zpages names (length names) rest) as [ps o]. simpl. lia.
+  - inversion Hex as [? ? H0|? ? Hrest]; subst; [lia|].
+    unfold page. destruct (Nat.leb_spec (length names) off) as [Hle|Hlt]; [simpl; lia|].
+    specialize (IH (Nat.min (off + Z.to_nat n) (length names)) ltac:(lia) Hrest).
+    destruct (zpages names (Nat.min (off + Z.to_nat n) (length names)) rest). simpl in *. exact IH.
+Qed.
+
+(* the handle's ReadDir, for every count, is that pager *)
+Theorem read_dir_is_zpage st h n names :
+  h_closed h = false -> h_names h = Some (inl names) -> (0 <= h_off h <= Z.of_nat (length names))%Z ->
+  let '(st', h', l, e) := read_dir st h n in
+  match zpage names (Z.to_nat (h_off h)) n with
+  | None => l = [] /\ e = Some (Bare EEOF) /\ h' = h
+  | Some (p, o) => e = None -> map fst l = p /\ h_off h' = Z.of_nat o
+  end.
+Proof.
+  intros C N Hoff. unfold zpage. destruct (Z.leb_spec n 0) as [Hn|Hn].
+  - exact (read_dir_rest st h n names C N Hn Hoff).
+  - apply read_dir_is_page; try assumption; lia.
 Qed.
 
 (* listing a non-directory fails with ErrNotDir (no store failure) *)
